@@ -2,7 +2,7 @@
 import copy
 import numpy as np
 
-from sim.core import Violation, Inconclusive, SimRandom, Scheduler, RandomProxy, patched_random, close
+from sim.core import Violation, Inconclusive, InjectedAbort, SimRandom, Scheduler, RandomProxy, patched_random, close
 from sim.models import nested_variant_spec, gen_mdp_spec, MDPView, make_mdp, dyadic
 from sim.refsolve import optimal_values
 from sim.ctx import RunCtx, make_scheduler, gen_sched
@@ -58,6 +58,8 @@ def gen_case(rng, tier, idx):
     plain = idx % 4 == 0
     if rng.random() < 0.12 and not plain:
         cfg['nest'] = rng.randrange(1000)
+    elif rng.random() < 0.1 and not plain:
+        cfg['abort'] = rng.randrange(1000)
     sched = gen_sched(rng, ('P',) if plain else ('P', 'U', 'R'), budget_choices=(None,), coop=False, cap=200000)
     return dict(spec=spec, cfg=cfg, sched=sched)
 
@@ -83,7 +85,7 @@ def execute(case, script=None):
     _r.seed(f"global:{case.get('verif_seed')}:{case.get('index')}")
     view = MDPView(case['spec'])
     ctx = RunCtx(PROP, view)
-    ctx.declare_probes('nested_run', 'second_derived_mdp_alive', 'second_planned_option_alive', 'option_raised_must', 'option_returned_must', 'boundary_raised', 'start_terminal',
+    ctx.declare_probes('rerun_after_abort', 'aborts_delivered', 'nested_run', 'second_derived_mdp_alive', 'second_planned_option_alive', 'option_raised_must', 'option_returned_must', 'boundary_raised', 'start_terminal',
                        'smdp_call_raised', 'smdp_dist_checked', 'primitive_checked', 'static_override_sets', 'plan_option',
                        'subtask_plan_checked', 'f7_before', 'f7_boundary', 'f7_after', 'cross_call_checked', 'smdp_actions_asked', 'option_run_longer_than_330_steps')
     sched = make_scheduler(case, script, ctx)
@@ -239,6 +241,20 @@ def _execute(view, cfg, ctx, sched):
             raise Violation('exception', f"Option.run_on raised {type(e).__name__}: {e}")
         return calls[-1]
 
+    if cfg.get('abort') is not None:
+        # fault F6: a run of the SAME option object on the same model object dies half-way with an exception thrown from a
+        # model call-back; the runs below use the same objects
+        ctx.probe('rerun_after_abort')
+        hook = ctx.abort_after(1 + cfg['abort'] % 9)
+        try:
+            o.run_on(mdp, sk[start], rng=SimRandom(sched))
+        except InjectedAbort:
+            ctx.probe('aborts_delivered')
+        except AlgorithmException:
+            pass
+        ctx.disarm(hook)
+        calls.clear()
+        inner_runs.clear()
     hookN = None
     if cfg.get('nest') is not None:
         # fault F10: at the k-th model call-back of the option's run, user code runs ANOTHER option (other policy, other
@@ -299,6 +315,18 @@ def _execute(view, cfg, ctx, sched):
         ctx.check(base == [ak[a] for a in view.A[start]], 'base-preserved',
                   lambda: f"{tag}: after asking the semi-MDP for its actions the base MDP's actions at {start} are {base}, they were {[ak[a] for a in view.A[start]]}")
         ctx.probe('smdp_actions_asked')
+    if cfg.get('abort') is not None:
+        hook = ctx.abort_after(1 + (cfg['abort'] // 9) % 11)
+        try:
+            with patched_random([sm], RandomProxy(sched)):
+                smdp.next_state_transit_time_reward_dist(sk[start], o)
+        except InjectedAbort:
+            ctx.probe('aborts_delivered')
+        except AlgorithmException:
+            pass
+        ctx.disarm(hook)
+        calls.clear()
+        inner_runs.clear()
     if cfg.get('ask_actions'):
         ask_actions('before the outcome queries')
         ask_actions('asked twice')
